@@ -95,10 +95,10 @@ Definition as_dict (t : tree) : option dict := match t with Node l => Some l | L
 (** ** arrays: a leaf is [nrows] rows of [slab] rationals *)
 Definition rows_of (slab nrows : nat) (data : list Q) : list (list Q) := chunks slab nrows data.
 (** leaves from ints = slab_1 nrows_1 .. slab_n nrows_n and arrs *)
-Fixpoint leaves_of (spec : list Z) (arrs : list (list Q)) {struct arrs} : list (list (list Q)) :=
-  match arrs, spec with
-  | a :: ar, s :: n :: sp => rows_of (Z.to_nat s) (Z.to_nat n) a :: leaves_of sp ar
-  | _, _ => []
+Fixpoint leaves_of (spec : list Z) (arrs : list (list Q)) {struct spec} : list (list (list Q)) :=
+  match spec with
+  | s :: n :: sp => rows_of (Z.to_nat s) (Z.to_nat n) (hd [] arrs) :: leaves_of sp (tl arrs)
+  | _ => []
   end.
 Definition enc_leaf (a : list (list Q)) : list Q := concat a.
 Definition enc_leaves (ls : list (list (list Q))) : list Q :=
